@@ -209,7 +209,19 @@ impl<'r> Gen<'r> {
             }
             // One, and (never chosen by the producer itself) Unsupported / Poisoned
             _ => {
-                let w = self.lit();
+                // half of the literals of a declared narrow type are special values OF THAT FORMAT
+                let special: Option<&[u32]> = match self.tctx.types.get(&type_id) {
+                    Some(crate::acceptor::Ty::Float(16)) => Some(&[0, 0x8000, 0x0001, 0x03ff, 0x0400, 0x3c00, 0x7bff, 0x7c00, 0xfc00, 0x7e00, 0x7c01, 0xffff, 0x8001]),
+                    Some(crate::acceptor::Ty::Float(32)) => Some(&[0, 0x8000_0000, 1, 0x007f_ffff, 0x0080_0000, 0x3f80_0000, 0x7f7f_ffff, 0x7f80_0000, 0xff80_0000, 0x7fc0_0000, 0xffff_ffff]),
+                    Some(crate::acceptor::Ty::Int(8)) => Some(&[0, 1, 0x7f, 0x80, 0xff, 0x100, 0xffff_ff80, 0xffff_ffff]),
+                    Some(crate::acceptor::Ty::Int(16)) => Some(&[0, 1, 0x7fff, 0x8000, 0xffff, 0x1_0000, 0xffff_8000, 0xffff_ffff]),
+                    Some(crate::acceptor::Ty::Int(32)) => Some(&[0, 1, 0x7fff_ffff, 0x8000_0000, 0xffff_ffff]),
+                    _ => None,
+                };
+                let w = match special {
+                    Some(v) if self.rng.chance(1, 2) => *self.rng.pick(v),
+                    _ => self.lit(),
+                };
                 ops.push(MOp::W(s.k_lit32, w));
             }
         }
@@ -1117,6 +1129,27 @@ pub fn plant_late_type(rng: &mut Rng, stream: &mut Stream) {
             next += 1;
         }
         stream.header.bound = next + 1;
+        return;
+    }
+    if rng.chance(1, 5) {
+        // an id defined twice: a type id re-defined as a value typed by itself, or two values typed by each other, and a
+        // literal consumer of it (widths are unconstrained for such ids; parsing must still terminate without panic)
+        let b = stream.header.bound + 1;
+        let at = stream.insts.iter().position(|i| i.is("Function")).unwrap_or(stream.insts.len());
+        let w = *rng.pick(&[32u32, 32, 64, 16]);
+        let mut seq = vec![MInst { opcode: s.op("TypeInt"), rtype: None, rid: Some(b), ops: vec![MOp::W(s.k_lit32, w), MOp::W(s.k_lit32, 0)] }];
+        if rng.chance(1, 2) {
+            seq.push(MInst { opcode: s.op("Undef"), rtype: Some(b), rid: Some(b), ops: vec![] });
+        } else {
+            seq.push(MInst { opcode: s.op("Undef"), rtype: Some(b + 1), rid: Some(b), ops: vec![] });
+            seq.push(MInst { opcode: s.op("Undef"), rtype: Some(b), rid: Some(b + 1), ops: vec![] });
+        }
+        let lit = if w == 64 { MOp::L64(7) } else { MOp::W(s.k_lit32, 7) };
+        seq.push(MInst { opcode: s.op("Constant"), rtype: Some(b), rid: Some(b + 2), ops: vec![lit] });
+        for (k, i) in seq.into_iter().enumerate() {
+            stream.insts.insert(at + k, i);
+        }
+        stream.header.bound = b + 4;
         return;
     }
     let ty = stream.header.bound + 1;
